@@ -17,6 +17,7 @@ DECLS = [
     ("u24", G.U24, {"LO": 1, "HI": 0x800000}, False), ("i32", G.I32, {"MIN": -(1 << 31), "MAX": (1 << 31) - 1}, False),
     ("u64", G.U64, {"BIG": 1 << 63, "ONE": 1}, False), ("i16", G.I16, {"M": -2, "P": 2}, False),
     ("f8", G.U8, {"X": 1, "Y": 2, "W": 8}, True), ("f16", G.U16, {"A": 1, "B": 0x8000}, True),
+    ("i24", G.I24, {"N": -1, "P": 1, "LOW": -(1 << 23)}, False), ("fdup", G.U8, {"A": 1, "B": 1, "C": 2, "D": 2}, True),
     ("f32combo", G.U32, {"A": 1, "B": 2, "AB": 3}, True), ("fs8", G.I8, {"A": 1, "B": 2}, True), ("f8zero", G.U8, {"NONE": 0, "X": 4}, True),
 ]
 
@@ -168,6 +169,18 @@ def make_eq(case):
             ctx.check("enum and flag members compare unequal to each other", R.And(ea != xa, xa != ea))
         ctx.check("equal objects hash equally", R.Implies(a == b, hash(ea) == hash(eb)))
         ctx.check("value preserved", R.And(ea.value == a, eb.value == b))
+        # declared members (aliases included): equal to each other exactly when their values are, and to a parsed value exactly
+        # when it has their value
+        ms = list(E.__members__.values())
+        for m1 in ms:
+            for m2 in ms:
+                if (m1 == m2) != (m1.value == m2.value) or (m1 != m2) != (m1.value != m2.value):
+                    ctx.check(f"members {m1.name} and {m2.name} compare by value", False, f"{m1!r} == {m2!r}: {m1 == m2}")
+                if m1.value == m2.value and hash(m1) != hash(m2) and m1.name == m2.name:
+                    ctx.check(f"equal members {m1.name} and {m2.name} hash equally", False)
+            ctx.check(f"E(a) == member {m1.name} <=> a == its value",
+                      R.And(R.Implies(ea == m1, a == m1.value), R.Implies(a == m1.value, ea == m1), R.Implies(a == m1.value, m1 == ea)))
+        ctx.check("declared members compare by value", True)
     return run
 
 
@@ -253,6 +266,9 @@ CONCRETE = [
     ("flag F : uint16 { A = 4, B, C = 3, D, E_ = 0x100, G };", {"A": 4, "B": 8, "C": 3, "D": 4, "E_": 256, "G": 512}),
     ("flag F : uint32 { A = 1, B = 2, AB = A | B, C };", {"A": 1, "B": 2, "AB": 3, "C": 4}),
     ("flag F { Z = 0, A, B };", {"Z": 0, "A": 1, "B": 2}),
+    # two declarations in one load() spelling a value with the same text over differently valued members
+    ("enum First : uint8 { A = 1, B = A + 1, C };\nenum E : uint8 { A = 0x80, B = A + 1, C };", {"A": 128, "B": 129, "C": 130}),
+    ("flag First : uint8 { A = 1, B = A << 1 };\nflag F : uint16 { A = 0x10, B = A << 1, C };", {"A": 16, "B": 32, "C": 64}),
 ]
 
 
@@ -268,7 +284,7 @@ def make_concrete(case):
         except Exception as ex:  # noqa: BLE001
             ctx.check("declaration loads", False, H.classify(ex) + " " + str(ex)[:80])
             return
-        E = cs.resolve("E" if "enum" in text.split("{")[0] else "F")
+        E = cs.resolve("E" if "enum E" in text or text.startswith("enum E") else "F")
         got = {k: v.value for k, v in E.__members__.items()}
         ctx.check("member values follow C numbering", got == expected, f"{got} vs {expected}")
         names = list(E.__members__)
